@@ -3,21 +3,56 @@
 package main
 
 import (
+	"fmt"
+	"sort"
+	"strings"
+
 	"github.com/TimothyStiles/poly/clone"
+	"github.com/TimothyStiles/poly/seqhash"
 )
 
 func init() {
-	frags := []clone.Fragment{
-		{Sequence: "ACAACTCA", ForwardOverhang: "AAGG", ReverseOverhang: "ACTC"},
-		{Sequence: "ACAATTCA", ForwardOverhang: "AAGG", ReverseOverhang: "ACTC"},
-		{Sequence: "ACAAACTCA", ForwardOverhang: "ACTC", ReverseOverhang: "GGTA"},
-		{Sequence: "TGAAAGTTGT", ForwardOverhang: "CCTT", ReverseOverhang: "TACC"}, // GGTA->AAGG supplied flipped
-		{Sequence: "ACGGCA", ForwardOverhang: "AAGG", ReverseOverhang: "TTGC"},
+	body := func(i int) string {
+		return "AC" + strings.Repeat("A", i+1) + "C" + strings.Repeat("TTACATCATA", 3) + strings.Repeat("T", i+1) + "CA"
 	}
+	f := func(fwd string, i int, rev string) clone.Fragment {
+		return clone.Fragment{Sequence: body(i), ForwardOverhang: fwd, ReverseOverhang: rev}
+	}
+	// a five-junction ring with two-way libraries in two slots, a slot-skipping fragment, a dead-end decoy
+	// and a side cycle that excludes every ring seed; constructs are longer than 128 bases
+	frags := []clone.Fragment{
+		f("AAGG", 0, "ACTC"), f("AAGG", 1, "ACTC"),
+		f("ACTC", 2, "GGTA"),
+		f("GGTA", 3, "CGAA"), f("GGTA", 4, "CGAA"),
+		f("CGAA", 5, "TCAG"),
+		f("TCAG", 6, "AAGG"),
+		f("ACTC", 7, "CGAA"),                        // skips two slots
+		f("GGTA", 8, "TTGC"),                        // dead end
+		f("CGAA", 9, "ATCC"), f("ATCC", 10, "CGAA"), // side cycle
+	}
+	var reference string
 	bodies["C09"] = func(rep int) {
-		parts := clone.CircularLigate(frags)
-		if len(parts) != 2 {
-			panic("racepass C09: unexpected number of constructs")
+		in := append([]clone.Fragment(nil), frags...)
+		// rotate the input order between repetitions
+		k := rep % len(in)
+		in = append(in[k:], in[:k]...)
+		parts := clone.CircularLigate(in)
+		var hs []string
+		for _, p := range parts {
+			h, _ := seqhash.Hash(p.Sequence, "DNA", true, true)
+			hs = append(hs, h)
+		}
+		sort.Strings(hs)
+		for i := 1; i < len(hs); i++ {
+			if hs[i] == hs[i-1] {
+				panic("racepass C09: the same molecule was returned twice")
+			}
+		}
+		got := fmt.Sprint(len(hs), hs)
+		if reference == "" {
+			reference = got
+		} else if got != reference {
+			panic("racepass C09: the set of constructs differs between runs: " + got[:20] + " vs " + reference[:20])
 		}
 	}
 }
